@@ -1,6 +1,7 @@
 package main
 
 import (
+	"fmt"
 	"go/constant"
 	"go/token"
 	"go/types"
@@ -347,4 +348,82 @@ func returnsNilError(ret *ssa.Return) bool {
 		}
 	}
 	return false
+}
+
+// ruleStampIdentity — R-STAMP/eq: a time stamp is the identity of a version of a file, not a date: values of the stamp
+// type are compared for equality only. An ordering (`<=`: "not newer than what was scanned") keeps the footprint of a file
+// replaced by an older one — a restored backup, a package downgrade, a copy that preserves times.
+func ruleStampIdentity(p *Prog, r *Report, pkg, typ string, floor int) {
+	const rule = "R-STAMP/eq"
+	T := p.Named(pkg, typ)
+	n := 0
+	bad := ""
+	for _, f := range p.ModFns() {
+		if fnPkg(f) == nil || fnPkg(f).Path() != p.pkgPath(pkg) {
+			continue
+		}
+		for _, b := range f.Blocks {
+			for _, in := range b.Instrs {
+				bo, ok := in.(*ssa.BinOp)
+				if !ok || namedOf(bo.X.Type()) != T || namedOf(bo.Y.Type()) != T {
+					continue
+				}
+				switch bo.Op {
+				case token.EQL, token.NEQ:
+					n++
+				case token.LSS, token.LEQ, token.GTR, token.GEQ:
+					n++
+					bad = p.IPos(bo)
+				}
+			}
+		}
+	}
+	key := pkg + "." + typ
+	r.Instance(rule, key)
+	r.Check(bad == "", rule, key, "-", fmt.Sprintf("the %d comparisons between two values of %s are equalities", n, typ)+pref(bad))
+	r.Floor(rule, n, floor)
+}
+
+// ruleTruncOnWrite — R-TRUNC: a file of the package that is opened for writing without appending is truncated: os.Create,
+// or os.OpenFile whose constant flags hold O_TRUNC (or O_APPEND / O_EXCL). Otherwise a shorter new content keeps the tail
+// of the old one, and the index that was just written cannot be read back.
+func ruleTruncOnWrite(p *Prog, r *Report, pkg string, floor int) {
+	const rule = "R-TRUNC"
+	n := 0
+	for _, f := range p.ModFns() {
+		if fnPkg(f) == nil || fnPkg(f).Path() != p.pkgPath(pkg) {
+			continue
+		}
+		for _, b := range f.Blocks {
+			for _, in := range b.Instrs {
+				call, ok := in.(*ssa.Call)
+				if !ok || call.Common().StaticCallee() == nil {
+					continue
+				}
+				switch call.Common().StaticCallee().String() {
+				case "os.Create":
+					n++
+					key := p.FnName(f) + "/os.Create"
+					r.Instance(rule, key)
+					r.OK(rule, key, p.IPos(call), "os.Create truncates")
+				case "os.OpenFile":
+					n++
+					key := p.FnName(f) + "/os.OpenFile"
+					r.Instance(rule, key)
+					k, isConst := call.Common().Args[1].(*ssa.Const)
+					if !isConst {
+						r.Bad(rule, key, p.IPos(call), "the flags of os.OpenFile are not constant: truncation cannot be decided")
+						continue
+					}
+					fl, _ := intConst(k)
+					const (
+						oWRONLY, oRDWR, oAPPEND, oCREATE, oEXCL, oTRUNC = 0x1, 0x2, 0x400, 0x40, 0x80, 0x200 // linux values of package os
+					)
+					writes := fl&(oWRONLY|oRDWR) != 0
+					r.Check(!writes || fl&(oTRUNC|oAPPEND|oEXCL) != 0, rule, key, p.IPos(call), "a file opened for writing is truncated (or appended to, or must not exist)")
+				}
+			}
+		}
+	}
+	r.Floor(rule, n, floor)
 }
